@@ -43,10 +43,9 @@ READ_ONLY = {}
 COMPANIONS = {
     ("composeinfo.Compose", "final"): {"label"},
     ("images.Image", "additional_variants"): {"unified"},
-    ("treeinfo.Stage2", "mainimage"): {"instimage"},
-    ("treeinfo.Stage2", "instimage"): {"mainimage"},
-    ("treeinfo.Media", "discnum"): {"totaldiscs"},
-    ("treeinfo.Media", "totaldiscs"): {"discnum"},
+}
+# attributes a guarded *read* may depend on (confirmed by reading), with the reason
+READ_COMPANIONS = {
 }
 # dropping the key when the companion is unset is not a documented normalisation: validate() must refuse that combination
 OMISSION_REFUSED = {("images.Image", "additional_variants")}
@@ -261,7 +260,10 @@ def r_schema(model, rep, qname, floor_keys):
         attr = list(rattrs)[0]
         # (c) guards and defaults
         for e in W[k]:
-            guards = facts.non_gate_guards(e.ev)
+            # (what is left of an earlier ``if <nothing to write>: return`` is not a condition of this key: whether that return
+            # is legitimate is R-SKIP-IMPLIES-EMPTY's question)
+            own = facts.own_guards(wcx, e.ev, kinds=("return",))
+            guards = [g for g in facts.non_gate_guards(e.ev) if g in own]
             gattrs = set()
             for g in guards:
                 gattrs |= set(wcx.self_attrs_in(g[0]))
@@ -288,6 +290,18 @@ def r_schema(model, rep, qname, floor_keys):
             conditional = bool(guards)
             for r, s in R[k]:
                 rguards = [g for g in r.guards]
+                # a key is read whenever the document has it: whether it is read may depend on the document (a probe, another
+                # key), never on what the object holds at that moment or on an unrelated argument
+                rattrs_g = set()
+                for g in rguards:
+                    if g[0][0] == "exc" or facts.is_pure_gate(g[0]):
+                        continue
+                    rattrs_g |= set(a for a in wcx.self_attrs_in(g[0]) if not a.startswith("_"))
+                rallowed = READ_COMPANIONS.get((qname, k), set())
+                okr_ = rattrs_g <= rallowed
+                rep.ob("R-SCHEMA", "%s:read-guard:%s" % (qname, k), okr_, site="%s:%s" % (cls.module.rel(), r.ev.lineno),
+                       msg="" if okr_ else "key %r is only read under a condition on self.%s (what the object holds while it is being "
+                                            "filled): a document that has the key is read without it" % (k, "/".join(sorted(rattrs_g - rallowed))))
                 guarded_read = any(T.contains(g[0], lambda x: x[0] == "call" and x[1][0] == "attr" and x[1][2] in ("has_option", "has_section")) or
                                    T.contains(g[0], lambda x: x[0] == "cmp" and x[1] == ("in",) and x[2][0] == ("const", k)) for g in rguards)
                 # a read guarded by has_option must probe the very (section, option) it reads: probing another place never
